@@ -415,6 +415,11 @@ def run(check, an: Analysis):
     # the scope absorbs its own cancellation only: what interrupts the *caller* of
     # collect()/first() from outside passes through after the rest was aborted
     _scope.check_suppression(check, an, 'abort')
+    # aborting an activity closes it whether it has started or not, and a closed activity
+    # leaves whatever it was waiting for (the very pair it subscribed)
+    c04.check_task_close(check, an, 'abort')
+    from . import c08
+    c08.check_subscription_paired(check, an, 'abort')
     # aborting the rest: closing children iterates copies (a closed child removes itself)
     for name in ('_close_children', '_close_volatile'):
         fn = an.method(SCOPE, name)
